@@ -275,6 +275,82 @@ func lastSwitch(fd *ast.FuncDecl) *ast.SwitchStmt {
 	return sw
 }
 
+// charLit: the value of a character literal ('=' → 61), -1 when e is none
+func charLit(e ast.Expr) int {
+	bl, ok := e.(*ast.BasicLit)
+	if !ok || bl.Kind != token.CHAR {
+		if ok && bl.Kind == token.INT {
+			v, err := strconv.Atoi(bl.Value)
+			if err == nil {
+				return v
+			}
+		}
+		return -1
+	}
+	r, _, _, err := strconv.UnquoteChar(bl.Value[1:len(bl.Value)-1], '\'')
+	if err != nil {
+		return -1
+	}
+	return int(r)
+}
+
+// peekTest: `l.PeekChar() == 'c'` → c, otherwise -1
+func peekTest(e ast.Expr) int {
+	be, ok := e.(*ast.BinaryExpr)
+	if !ok || be.Op != token.EQL {
+		return -1
+	}
+	ce, ok := be.X.(*ast.CallExpr)
+	if !ok || !strings.HasSuffix(sel(ce.Fun), "PeekChar") {
+		return -1
+	}
+	return charLit(be.Y)
+}
+
+// lexerDispatch walks `switch l.CurrentChar` of baseNextToken: for every case with a character literal, and every path
+// through its if / else-if chain on `l.PeekChar() == 'c'`, the token constant handed to l.NewToken:
+// (first character, look-ahead character or 0, token constant)
+func lexerDispatch(fd *ast.FuncDecl) (out [][3]string) {
+	sw := firstSwitch(fd)
+	if s := sel(sw.Tag); !strings.HasSuffix(s, "CurrentChar") {
+		fail("first switch of baseNextToken is not on l.CurrentChar: %q", s)
+	}
+	var walk func(c int, peek int, stmts []ast.Stmt)
+	walk = func(c int, peek int, stmts []ast.Stmt) {
+		for _, st := range stmts {
+			switch x := st.(type) {
+			case *ast.AssignStmt:
+				if len(x.Rhs) == 1 {
+					if ce, ok := x.Rhs[0].(*ast.CallExpr); ok && strings.HasSuffix(sel(ce.Fun), "NewToken") && len(ce.Args) >= 1 {
+						out = append(out, [3]string{fmt.Sprint(c), fmt.Sprint(peek), strings.TrimPrefix(sel(ce.Args[0]), "token.")})
+					}
+				}
+			case *ast.IfStmt:
+				p := peekTest(x.Cond)
+				if p < 0 {
+					continue // a test of something else (end of input): not part of the operator dispatch
+				}
+				walk(c, p, x.Body.List)
+				switch e := x.Else.(type) {
+				case *ast.BlockStmt:
+					walk(c, 0, e.List)
+				case *ast.IfStmt:
+					walk(c, 0, []ast.Stmt{e})
+				}
+			}
+		}
+	}
+	for _, cl := range sw.Body.List {
+		cc := cl.(*ast.CaseClause)
+		for _, l := range cc.List {
+			if c := charLit(l); c > 0 {
+				walk(c, 0, cc.Body)
+			}
+		}
+	}
+	return
+}
+
 func main() {
 	repo := "/repo"
 	if len(os.Args) > 1 {
@@ -532,6 +608,18 @@ func main() {
 	w("def nodePrecedenceCount : Nat := %d", len(np))
 	w("def binaryUsesOperatorPrecedence : Bool := %v", np["BinaryExpression"] == "operatorPrecedence()")
 	w("")
+
+	// lexer: the operator / delimiter dispatch of baseNextToken
+	{
+		var parts []string
+		for _, e := range lexerDispatch(findFunc(lx, "baseNextToken")) {
+			parts = append(parts, fmt.Sprintf("(%s, %s, %d)", e[0], e[1], tv(e[2])))
+		}
+		sort.Strings(parts)
+		w("-- baseNextToken: (first character, look-ahead character or 0, token constant handed to NewToken)")
+		w("def lexerDispatch : List (Nat × Nat × Nat) := [%s]", strings.Join(parts, ", "))
+		w("")
+	}
 
 	// sourcemap
 	w("def base64Chars : List Nat := %s", bytesLit(lit(findVar(sm, "base64Chars"))))
